@@ -6,12 +6,35 @@ var IteratorInterface *Interface
 // ::Std::Iterator::Base
 var IteratorBaseMixin *Mixin
 
+// ::Std::ResettableIterator
+var ResettableIteratorInterface *Interface
+
+// ::Std::ResettableIterator::Base
+var ResettableIteratorBaseMixin *Mixin
+
 func initIterator() {
 	IteratorInterface = NewInterface()
 	StdModule.AddConstantString("Iterator", Ref(IteratorInterface))
 	RegisterNativeClass("Std::Iterator", "value.IteratorInterface")
 
 	IteratorBaseMixin = NewMixin()
+	IteratorBaseMixin.IncludeMixin(IterableBaseMixin)
 	IteratorInterface.AddConstantString("Base", Ref(IteratorBaseMixin))
 	RegisterNativeMixin("Std::Iterator::Base", "value.IteratorBaseMixin")
+
+	ResettableIteratorInterface = NewInterface()
+	StdModule.AddConstantString("ResettableIterator", Ref(ResettableIteratorInterface))
+	RegisterNativeInterface("Std::ResettableIterator", "value.ResettableIteratorInterface")
+
+	ResettableIteratorBaseMixin = NewMixin()
+	ResettableIteratorBaseMixin.IncludeMixin(IteratorBaseMixin)
+	ResettableIteratorInterface.AddConstantString("Base", Ref(ResettableIteratorBaseMixin))
+	RegisterNativeMixin("Std::ResettableIterator::Base", "value.ResettableIteratorBaseMixin")
+
+	// iterator classes that are created before the iterator mixins
+	GeneratorClass.IncludeMixin(IteratorBaseMixin)
+	IntIteratorClass.IncludeMixin(IteratorBaseMixin)
+	StringCharIteratorClass.IncludeMixin(IteratorBaseMixin)
+	StringByteIteratorClass.IncludeMixin(IteratorBaseMixin)
+	StringGraphemeIteratorClass.IncludeMixin(IteratorBaseMixin)
 }
